@@ -327,7 +327,7 @@ func init() {
 					hist = append(hist[:pos], append([]Call{{Op: "add", A: r.intn(n)}}, hist[pos:]...)...)
 				}
 			}
-			spec := &Spec{N: n, Hist: hist, Plan: plan, Serial: serial, MaxPar: maxpar, PSeed: r.u64(), Buffer: r.chance(1, 3), CtxErrs: r.chance(1, 3), Literal: r.chance(1, 4)}
+			spec := &Spec{N: n, Hist: hist, Plan: plan, Serial: serial, MaxPar: maxpar, PSeed: r.u64(), Buffer: r.chance(1, 3), CtxErrs: r.chance(1, 3), Literal: r.chance(1, 4), WrapSkip: r.chance(1, 3), Percent: r.chance(1, 5)}
 			if r.chance(1, 8) {
 				spec.PreTasks, spec.PreFail = 2, true // an earlier failed Run of the same graph
 			}
@@ -406,6 +406,8 @@ func init() {
 				spec.Cancel = Cancel{Kind: "inside-task", K: r.intn(n)}
 			}
 			spec.CtxErrs = r.chance(1, 3)
+			spec.WrapSkip = r.chance(1, 3)
+			spec.Percent = r.chance(1, 4)
 			if spec.Cancel.Kind != "" && r.chance(1, 3) {
 				spec.Deadline = true
 			}
@@ -505,8 +507,8 @@ func init() {
 				edges := randomDag(r, n, r.intn(30))
 				plan, retries := randomPlan(r, n, 10)
 				spec = &Spec{N: n, Hist: canonHist(r, n, edges, retries), Plan: plan, Policy: "eager", HoldUS: 50 + r.intn(150), NGraphs: 2 + r.intn(3), PSeed: r.u64()}
-				if r.chance(1, 3) {
-					spec.MaxPar = 1 + r.intn(3)
+				if r.chance(1, 2) {
+					spec.MaxPar = 1 + r.intn(2)
 				}
 				if r.chance(1, 2) {
 					spec.SerialMask = 1 + r.intn((1<<uint(spec.NGraphs))-1) // at least one of the graphs is serial
@@ -634,6 +636,8 @@ func init() {
 					spec.Cancel.K = r.intn(n)
 				}
 			}
+			spec.TickerZero = r.chance(1, 15)
+			spec.Percent = r.chance(1, 8)
 			if len(hist) > 1 && r.chance(1, 3) {
 				spec.SortAt = 1 + r.intn(len(hist)-1) // DepthFirstSort called while the graph is still being built
 			}
